@@ -52,6 +52,7 @@ CODES = {
     62: "the rollback did not write both the status and the object although nothing was rejected",
     63: "a failed canary replica set was deleted within two minutes of its failure",
     64: "a replica set still reporting pods was deleted",
+    65: "the failed canary replica set was deleted while spec.template still names its template",
     20: "harness panic",
 }
 GO_TIMEOUT = 1800
